@@ -14,8 +14,13 @@ Us == JsonDeserialize(IOEnv.UNIVERSE)
 VARIABLES u, t, doc
 vars == <<u, t, doc>>
 
-DocsOf(i) == { [rule |-> r, utils |-> <<>>] : r \in RulesOf(Us[i], Us[i].full) }
-             \cup (IF Us[i].full THEN UtilDocs(Us[i]) \cup ConsDocs(Us[i]) ELSE {})
+\* shadow = TRUE: the project also has global utility rules with the ids of the document's local utilities (and other
+\* bodies); a local utility shadows a global one, so the meaning of the document is the same
+Plain(D) == { [rule |-> d.rule, utils |-> d.utils, shadow |-> FALSE] : d \in D }
+DocsOf(i) == Plain({ [rule |-> r, utils |-> <<>>] : r \in RulesOf(Us[i], Us[i].full) })
+             \cup (IF Us[i].full THEN Plain(UtilDocs(Us[i]) \cup ConsDocs(Us[i]))
+                                       \cup { [rule |-> d.rule, utils |-> d.utils, shadow |-> TRUE] : d \in UtilDocs(Us[i]) }
+                    ELSE {})
 
 Init == /\ u \in 1..Len(Us)
         /\ t \in 1..Len(Us[u].trees)
@@ -50,5 +55,5 @@ Survey ==
     /\ (C04_NoTrace \/ PrintT(<<"MFAIL", "C04", u, t, doc>>))
     /\ (C01_KindSound \/ PrintT(<<"MFAIL", "C01", u, t, doc>>))
 
-Export == PrintT(<<"VEC", ToJson([u |-> u, t |-> t, rule |-> doc.rule, utils |-> doc.utils])>>)
+Export == PrintT(<<"VEC", ToJson([u |-> u, t |-> t, rule |-> doc.rule, utils |-> doc.utils, shadow |-> doc.shadow])>>)
 =============================================================================
